@@ -8,3 +8,6 @@
         #[verifier::external_body]
         pub fn root_cause(&self) -> (r: IOError) ensures r.raw() == Some(self.errno_spec()) { unimplemented!() }
     }
+    pub type Dev = u64;
+    pub type RawMode = u32;
+//@item src/syscalls.rs :: struct OpenHow | sub.OpenHow
